@@ -64,6 +64,14 @@ def rechunker(
     _check_arguments(source_directory, replace, dest_directory, parallel)
     backend_key = os.path.basename(os.path.normpath(source_directory))
     dest_directory, _temp_dir = _get_dest_and_tempdir(dest_directory, replace, backend_key)
+    if os.path.realpath(dest_directory) == os.path.realpath(source_directory):
+        # The saver removes whatever sits at its destination before the (lazy) loader
+        # has read anything: writing onto the source would destroy it.
+        raise ValueError(
+            f"The destination {dest_directory} is the source directory itself. "
+            "Specify another <dest_directory>, or use replace=True without <dest_directory> "
+            "to rechunk in place."
+        )
 
     backend = strax.FileSytemBackend(set_target_chunk_mb=target_size_mb)
     meta_data, source_compressor = _get_meta_data_and_compressor(
